@@ -3,13 +3,15 @@ import numpy as np
 
 from vlib import core, scen, scengen
 from props import trainmodel
+from props import fitfb
 
 IMPORTS = scen.IMPORTS
 TRUSTED = ["sub-model feedback senders are modelled only when all their nodes belong to the running model and are entirely upstream or entirely "
            "downstream of the receiver (the `_fb_flag`s agree); senders straddling the receiver or living partly outside the model are probed by "
            "the implementation oracle only",
-           "offline fit use of targets as forced feedback and the ESN node: implementation oracle only (offline training is modelled in C06)"] + trainmodel.TRUSTED
-ASSUMPTIONS = ["at rest all state proxies are None; receivers add 100 x feedback so that a timing error is an O(100) difference"] + trainmodel.ASSUMPTIONS
+           "offline fit use of targets as forced feedback and ESN.fit: modelled in coq/model/FitFb.v (theorems C05_fit_forced_*, correspondence "
+           "props/fitfb.py) and additionally probed by the implementation oracle"] + trainmodel.TRUSTED + fitfb.TRUSTED
+ASSUMPTIONS = ["at rest all state proxies are None; receivers add 100 x feedback so that a timing error is an O(100) difference"] + trainmodel.ASSUMPTIONS + fitfb.ASSUMPTIONS
 
 
 def sender_dim(sk):
@@ -83,12 +85,17 @@ def correspondence(ctx):
     dist["modeltrain"] = dict({k: mt[k] for k in ("evaluations", "distinct_nontrivial", "distribution", "rule")}, disagree=len(mt["failing"]))
     if mt["error"]:
         err = (err or "") + "modeltrain: " + mt["error"]
-    return {"evaluations": n + mt["evaluations"], "distinct_nontrivial": len(nt) + mt["distinct_nontrivial"],
+    # offline fit of models with feedback and ESN.fit (coq/model/FitFb.v, run/RunC06.v): same generator as C06, sub-id <pid>_fitfb
+    ff = fitfb.run(ctx, ctx.n(21, 210))
+    dist["fitfb"] = dict({k: ff[k] for k in ("evaluations", "distinct_nontrivial", "distribution", "rule")}, disagree=len(ff["failing"]))
+    if ff["error"]:
+        err = (err or "") + "fitfb: " + ff["error"]
+    return {"evaluations": n + mt["evaluations"] + ff["evaluations"], "distinct_nontrivial": len(nt) + mt["distinct_nontrivial"] + ff["distinct_nontrivial"],
             "rule": "feedback topologies {sender downstream, upstream, outside the forward graph, sub-model upstream, sub-model downstream, reservoir<-readout}; "
                     "histories run / continued run / run with forced feedback keyed by sender or receiver (shift on/off, reset) / call with forced feedback; "
                     "non-trivial = a feedback contribution (x100) is visible in some output; distinct by scenario text",
             "samples": keep[:2], "distribution": dist, "tolerance": "1e-9 relative (qclose)",
-            "failing": [dict(keep[i], index=i) for i in failing] + mt["failing"], "error": err}
+            "failing": [dict(keep[i], index=i) for i in failing] + mt["failing"] + ff["failing"], "error": err}
 
 
 # ------------------------------------------------------------------------------------------ oracle on the implementation
@@ -518,7 +525,7 @@ def _judge_fit_unforced(rng, tag):
 
 
 def judge(case):
-    if case.get("kind") == "modeltrain":       # a Model.train history (props/trainmodel.py): decided by the correspondence only
+    if case.get("kind") in ("modeltrain", "fitfb"):       # Model.train history / fit-with-feedback scenario: decided by the correspondence only
         return None
     return _judge(case["scenario"])
 
@@ -546,6 +553,9 @@ def oracle(ctx, scale=1):
 
 
 def replay(payload):
+    ffc = [c for c in payload.get("corr_cases", []) if c.get("kind") == "fitfb"]
+    if ffc:                                    # a disagreeing fit-with-feedback scenario stored by the correspondence
+        return fitfb.replay(ffc[0])
     mt = [c for c in payload.get("corr_cases", []) if c.get("kind") == "modeltrain"]
     if mt:                                     # a disagreeing Model.train history stored by the correspondence
         return trainmodel.replay(mt[0])
